@@ -80,6 +80,8 @@ type Plugin struct {
 	fields *parsedFields
 	logger *zap.Logger
 	buf    []byte
+	// values of the metric labels, see keyMetricLabelValues
+	labelValsBuf []string
 
 	cardinalityUniqueValuesLimit *metric.Gauge
 	cardinalityUniqueValuesGauge *metric.GaugeVec
@@ -252,6 +254,25 @@ func keyMetricLabels(fields *parsedFields) []string {
 	return result
 }
 
+// keyMetricLabelValues returns the values of the labels keyMetricLabels has registered: one per distinct
+// label name. Two key selectors may share a label name (`a.b` and `a_b` are both `a_b`); the first one gives the value.
+func keyMetricLabelValues(fields *parsedFields, buf []string) []string {
+	buf = buf[:0]
+	for i := range fields.fields {
+		seen := false
+		for j := 0; j < i; j++ {
+			if fields.fields[j].name == fields.fields[i].name {
+				seen = true
+				break
+			}
+		}
+		if !seen {
+			buf = append(buf, fields.valsBuf[i])
+		}
+	}
+	return buf
+}
+
 func (p *Plugin) Stop() {
 
 }
@@ -290,7 +311,8 @@ func (p *Plugin) Do(event *pipeline.Event) pipeline.ActionResult {
 	if !isOldValue {
 		// is new value
 		keysCount++
-		p.cardinalityUniqueValuesGauge.WithLabelValues(p.keys.valsBuf...).Set(float64(keysCount))
+		p.labelValsBuf = keyMetricLabelValues(p.keys, p.labelValsBuf)
+		p.cardinalityUniqueValuesGauge.WithLabelValues(p.labelValsBuf...).Set(float64(keysCount))
 	}
 
 	return pipeline.ActionPass
